@@ -26,6 +26,8 @@ on, explicit wake-ups, the clock):
   left are allocator / semaphore waits, which the dispatcher does not own, and only while no unit is
   free), and every wait that returned after termination returned what the classification table
   `okAfterTerm` allows;
+* `terminated_releases_ports` — after termination the dispatcher holds no port number (the allocator exception
+  above is about port numbers held by the user);
 * `later_ops_error` — a wait on a dispatcher-owned link started after termination returns at its first
   poll, with a result of the table; `later_user_owned_ok` — on the allocator / semaphore it is served at
   once when a unit is free;
@@ -167,6 +169,14 @@ theorem terminated_nothing_pending (s : WState) (h : WReachable s) (ht : s.term.
     obtain ⟨l, hl, hu, _⟩ := (terminated_all_error s h ht hq).1 w hw
     rw [hno w hw l hl] at hu
     cases hu
+
+/-- **The allocator exception is not the dispatcher's doing.**  After termination the dispatcher holds no
+port number any more (the keys of its port table, the queued connect requests and `Accepted` events were
+dropped with it and every allocator waiter was woken): an allocator wait that is still parked at
+quiescence lacks port numbers that the *user* holds (port numbers allocated and not yet used, or held by
+waits that are parked in the same way). -/
+theorem terminated_releases_ports (s : WState) (h : WReachable s) (ht : s.term.isSome = true) :
+    ∀ l ∈ s.links, l.tableHeld = 0 := noTable_reachable h ht
 
 theorem giveBack_pending_ids (s : WState) (o : Option Nat) : (giveBack s o).pending.map Wait.id = s.pending.map Wait.id := by
   unfold giveBack
